@@ -311,36 +311,58 @@ def pAtom : Nat → List PTok → PRes
     | _ => none
 end
 
+/-- result of the lexical bracket scan -/
+inductive ScanRes
+  | invalid                      -- certainly a SyntaxError
+  | unknown                      -- constructs the scan does not judge (comments, triple quotes)
+  | ok (stack : List Nat)        -- scanned to the end, outside any string literal; open brackets left
+  deriving Repr, DecidableEq, Inhabited
+
+def closes (o c : Nat) : Bool := (o == 40 && c == 41) || (o == 91 && c == 93) || (o == 123 && c == 125)
+
+/-- scanner mode: outside string literals / inside one with quote `q` / right after a backslash in one -/
+inductive ScanMode | out | str (q : Nat) | esc (q : Nat)
+  deriving Repr, DecidableEq, Inhabited
+
+def isTriple (c : Nat) (r : Str) : Bool :=
+  match r with
+  | d :: e :: _ => d == c && e == c
+  | _ => false
+
+def popClose (st : List Nat) (c : Nat) : Option (List Nat) :=
+  match st with
+  | o :: rest => if closes o c then some rest else none
+  | [] => none
+
 /-- A *sound* syntactic test for invalid Python: scanning outside string literals, a closing
 bracket without its opener, a mismatched pair, an unclosed bracket or an unterminated (single-line)
 string literal.  Every such text is a `SyntaxError` in Python; the converse is not claimed. -/
-def bracketScan : Nat → Str → List Nat → Bool
-  | 0, _, _ => false
-  | _, [], stack => !stack.isEmpty
-  | f+1, c :: r, stack =>
+def scan : ScanMode → List Nat → Str → ScanRes
+  | .out, st, [] => .ok st
+  | .str _, _, [] => .invalid
+  | .esc _, _, [] => .invalid
+  | .esc q, st, _ :: r => scan (.str q) st r
+  | .str q, st, c :: r =>
+    if c == 92 then scan (.esc q) st r
+    else if c == 10 then .invalid
+    else if c == q then scan .out st r
+    else scan (.str q) st r
+  | .out, st, c :: r =>
     if c == 39 || c == 34 then
-      -- skip a string literal (triple quotes are left to the oracle: report "not definitely invalid")
-      match r with
-      | d :: e :: _ => if d == c && e == c then false else skipStr f c r stack
-      | _ => skipStr f c r stack
-    else if c == 40 || c == 91 || c == 123 then bracketScan f r (c :: stack)
+      (if isTriple c r then .unknown else scan (.str c) st r)
+    else if c == 40 || c == 91 || c == 123 then scan .out (c :: st) r
     else if c == 41 || c == 93 || c == 125 then
-      match stack with
-      | o :: rest => if (o == 40 && c == 41) || (o == 91 && c == 93) || (o == 123 && c == 125) then bracketScan f r rest else true
-      | [] => true
-    else if c == 35 then false          -- a comment: leave to the oracle
-    else bracketScan f r stack
-where
-  skipStr : Nat → Nat → Str → List Nat → Bool
-    | 0, _, _, _ => false
-    | _, _, [], _ => true                -- unterminated string literal
-    | f+1, q, c :: r, stack =>
-      if c == 92 then (match r with | _ :: r' => skipStr f q r' stack | [] => true)
-      else if c == 10 then true
-      else if c == q then bracketScan f r stack
-      else skipStr f q r stack
+      (match popClose st c with
+       | some rest => scan .out rest r
+       | none => .invalid)
+    else if c == 35 then .unknown
+    else scan .out st r
 
-def definitelyInvalid (s : Str) : Bool := s.isEmpty || bracketScan (2 * s.length + 2) s []
+def definitelyInvalid (s : Str) : Bool :=
+  s.isEmpty || (match scan .out [] s with
+    | .invalid => true
+    | .ok (_ :: _) => true
+    | _ => false)
 
 /-- parse a complete expression of the subset -/
 def parsePExpr (s : Str) : Option PExpr := do
